@@ -193,6 +193,10 @@ func (c *conn) serve() error {
 				// the context was canceled for some reason, perhaps timeout or
 				// due to a flush call. We treat this as a condition where a
 				// response should not be sent.
+			case <-c.closed:
+				// the writer is gone (write error or disconnect): nobody
+				// will ever take the response.
+				return c.err
 			}
 			delete(tags, resp.Tag)
 		case <-c.ctx.Done():
